@@ -9,6 +9,7 @@ import (
 	"github.com/cockroachdb/errors"
 	"github.com/cockroachdb/errors/errbase"
 	"github.com/cockroachdb/errors/errorspb"
+	"github.com/cockroachdb/redact"
 	"github.com/gogo/protobuf/proto"
 	"github.com/gogo/protobuf/types"
 )
@@ -173,6 +174,29 @@ func HasBarrier(b []byte) bool {
 		}
 	})
 	return has
+}
+
+// BarrierPrevKey is the family name under which previous versions of the
+// library sent barrier leaves (barriers.go registers a decoder for it).
+const BarrierPrevKey = "github.com/cockroachdb/errors/barriers/*barriers.barrierError"
+
+// AsPreviousSender rewrites the wire into what a sender running the
+// previous version of the library would have produced for the same
+// error: every barrier leaf (recursively) travels under the previous
+// type name and carries its overriding message as plain text instead of
+// a redactable string. The second result tells whether anything changed.
+func AsPreviousSender(b []byte) ([]byte, bool) {
+	enc := Unmarshal(b)
+	changed := false
+	WalkWire(enc, func(d *errorspb.EncodedErrorDetails, msg *string, isWrapper bool) {
+		if !isWrapper && d.ErrorTypeMark.FamilyName == BarrierKey {
+			d.ErrorTypeMark.FamilyName = BarrierPrevKey
+			d.OriginalTypeName = BarrierPrevKey
+			*msg = redact.RedactableString(*msg).StripMarkers()
+			changed = true
+		}
+	})
+	return Marshal(enc), changed
 }
 
 // HidePayloadTypes rewrites every Any type URL except nested
